@@ -188,6 +188,20 @@ theorem formatTextGen_eq (tm : Tm) (f : Fmt) (short : Bool) : formatTextGen tm f
       Gen.Date.isoBasicLong, Gen.Date.isoBasicShort, List.find?, fmtRfc822, fmtRfc822Short, fmtClock, fmtIso, fmtIsoBody,
       fmtIsoBodySep, fmtIsoShort, fmtBasic, fmtBasicBody, fmtBasicBodySep, fmtBasicShort]
 
+/-- the six local-time formatter cases read `local_time` with "%a, %d %b %Y %H:%M:%S %Z" (zone name last),
+"%Y-%m-%dT%H:%M:%SZ", "%Y%m%dT%H%M%SZ" and the date-only forms -/
+theorem formatLocalText_eq (z : Zone) (dt : DateTime) (f : Fmt) (short : Bool) :
+    formatLocalText z dt f short =
+      match f, short with
+      | .rfc822, false => some (fmtRfc822Body (localtime z dt.timestamp) ++ z.name)
+      | f, short => formatText (localtime z dt.timestamp) f short := by
+  cases f <;> cases short <;>
+    simp [formatLocalText, formatText, fmtIndex, strftimeLocal, strftimeConv, Gen.Date.localStr, Gen.Date.localShortStr,
+      Gen.Date.AWS_DATE_FORMAT_RFC822, Gen.Date.AWS_DATE_FORMAT_ISO_8601, Gen.Date.AWS_DATE_FORMAT_ISO_8601_BASIC,
+      Gen.Date.AWS_DATE_FORMAT_AUTO_DETECT, Gen.Date.rfc822WithZ, Gen.Date.rfc822Short, Gen.Date.isoLong, Gen.Date.isoShort,
+      Gen.Date.isoBasicLong, Gen.Date.isoBasicShort, List.find?, fmtRfc822Body, fmtRfc822Short, fmtClock, fmtIso, fmtIsoBody,
+      fmtIsoBodySep, fmtIsoShort, fmtBasic, fmtBasicBody, fmtBasicBodySep, fmtBasicShort]
+
 /-- every month name the formatter emits is found by the (generated) compare chain with its own number -/
 theorem monthTable_ok : ∀ m : Fin 12, monthNumber (monthName (m.val : Int) ++ [32]) = some m.val := by decide
 
